@@ -181,12 +181,14 @@ func VerifC13Serve() {
 		api.SpecFileHandler = SpecFileHandler()
 	}
 	n := vrt.IntRange("n_middlewares", 0, 2)
+	shorted := false
 	for i := 0; i < n; i++ {
 		short := vrt.Bool("mw_short_circuits")
 		api.Middlewares = append(api.Middlewares, func(next http.Handler) http.Handler {
 			return http.HandlerFunc(func(w http.ResponseWriter, r *http.Request) {
 				mwRan++
 				if short {
+					shorted = true
 					w.WriteHeader(295)
 					return
 				}
@@ -210,7 +212,9 @@ func VerifC13Serve() {
 			vrt.Assert(mwRan == 0 && hit == 0, "spec route went through middlewares / a handler")
 		} else {
 			vrt.Reach("spec-not-installed")
-			vrt.Assert(hit == want, "with no spec handler installed the spec path is not routed like any other path")
+			if !shorted {
+				vrt.Assert(hit == want, "with no spec handler installed the spec path is not routed like any other path")
+			}
 			if want == 0 {
 				vrt.Assert(w.status == 404, "with no spec handler installed the spec path is not answered 404")
 			}
